@@ -31,6 +31,9 @@ CHECKS["C16"] = ("model_checking", "explicit-state exploration of real Decoder/E
 CHECKS["C07"] = ("fault_enumeration", "exhaustive size sweep across every flush threshold x writer kinds x entry points, and enumeration of every single write-fault schedule (call index x short-write length)",
   "For every leading-string length of the tier's set (thorough: every L in 0..9000) x 6 value shapes with 7 kinds of empty omitempty members at first/middle/last position x 3 whitespace option sets x 2 pool histories: bytes delivered by MarshalWrite (bytes.Buffer, pre-grown, plain writer), MarshalEncode on streaming Encoders and a token-level replay equal Marshal's. Every failing Write call index x {0,1,len/2,len-1} accepted bytes: token-level Encoders accept every token, keep OutputOffset, deliver a prefix and finally everything; MarshalWrite returns the error with only a prefix delivered and later calls are unaffected.",
   "Trusted: Marshal's output as reference bytes (validated by the reference recognizer).", "2/C07")
+CHECKS["C10"] = ("exploration", "exhaustive float32 sweep (thorough) / exponent x mantissa grids and bound-neighbourhood literal enumeration against strconv shortest digits + own ECMA-262 layout and math/big range arithmetic",
+  "Formatting: every float32 bit pattern (thorough) or all exponents x mantissa patterns (quick), float64 grid over all 2047 exponents plus ulp-neighbourhoods of all powers of ten and layout switches: AppendFloat equals the ECMA-262 layout of the shortest round-trip digits and parses back bit-identically; same through Marshal/Token paths; int64/uint64 boundaries printed exactly. Parsing: every integer within +-R of every width bound in several spellings, 19-22 digit strings, float literals on float32 midpoints, into all 13 numeric Go types bare/string-tagged/StringifyNumbers/map key; Token.Int/Uint/Float classification and saturation.",
+  "Trusted: strconv.ParseFloat/AppendFloat(shortest) and math/big.", "2/C10")
 NOT_YET = {}
 def main():
     props=[json.loads(l)["id"] for l in open("properties.jsonl")]
